@@ -400,7 +400,17 @@ def c18_state(ctx):
                            'bespokeasm.assembler.bytecode.generator'))
 
 
-RULES = [c18_1, c18_2, c18_3, c18_scopes, c18_vetoes, c18_consume, c18_operands, c18_state]
+def c18_registers_and_blanks(ctx):
+    """The letter case of a register and the blanks around an operand do not change which operand type takes it: the register test of
+    expressions (C13.5) and the texts tested before a pattern (C13.10); blanks inside an expression are any whitespace (C07.4)."""
+    from rules.c13 import c13_5, c13_vetoes
+    from rules.c07 import c07_4
+    c13_5(ctx)
+    c13_vetoes(ctx)
+    c07_4(ctx)
+
+
+RULES = [c18_1, c18_2, c18_3, c18_scopes, c18_vetoes, c18_consume, c18_operands, c18_state, c18_registers_and_blanks]
 
 MUTANTS = [
     V('c18-zone-directive-not-same-line', 'assembler/line_object/factory.py', "                    if isinstance(line_obj, SetMemoryZoneLine):\n                        # statements that follow on the same line are assembled in the zone just selected\n                        current_memzone = line_obj.memory_zone\n", "", 'C18.3'),
